@@ -50,6 +50,9 @@ CORPUS = [
     # F25: reduction of an empty negative-step slice computes a wrongly shaped (1,0) result, advertised/NumPy (0,1)
     ("F25", ("reduce", "max", ("slice", ("src", 0), (S(None), S(None, 2, -2), S(None))), (0,), False, None),
      [(np.array([[[-1], [6]]], dtype="int64"), ((1,), (1, 1), (1,)))]),
+    # F20 (silent): broadcast_to over a node whose chunks a rewrite changes -> wrong values
+    ("F20w", ("diff", ("elem", "abs", ("broadcast_to", ("diff", ("src", 0), 0), (3, 4))), 1),
+     [(np.array([-2, 5, 12, -4, 3], dtype="int64"), ((1, 1, 3),))]),
     # F21: diff over repeat over a concatenate raises NotImplementedError
     ("F21", ("diff", ("repeat", ("concat", (("reduce", "all", ("src", 0), (0,), True, None), ("src", 1)), 0), 2, 0), 0),
      [(np.array([-1, 6, 13], dtype="int64"), ((1, 2),)), (np.array([True, True]), ((1, 1),))]),
@@ -113,6 +116,7 @@ def run_one(chk, da, prog, sources, want, tag=None):
         cls = "slice-through-nonpointwise-map_blocks" if nonpointwise else ("raises" if "raised" in sp[0] else "wrong-value")
         opname = lambda q: q[0] if q[0] != "reduce" else "reduce:" + q[1]  # noqa: E731
         sig = {"class": cls, "root_op": opname(small), "child_ops": sorted({opname(q) for q in progs.subprograms(small)})}
+        sig["has_broadcast_to"] = any(q[0] == "broadcast_to" for q in progs.all_nodes(small))
         sig["zero_length_result"] = bool(np.size(sw) == 0)
         sig["swv_reduction_below_root"] = any(q[0] == "swv" and q[4] is not None for q in progs.all_nodes(small)[1:])
         if cls == "raises":
